@@ -1,5 +1,6 @@
 import Tumfl.Props.C04
 import Tumfl.Props.Final
+import Tumfl.Props.C04Faithful
 #print axioms Tumfl.Props.C04_lookup
 #print axioms Tumfl.Props.C04_lookup_none
 #print axioms Tumfl.Props.C04_no_require
@@ -10,3 +11,11 @@ import Tumfl.Props.Final
 #print axioms Tumfl.Props.C04_formats_valid
 #print axioms Tumfl.Props.C04_formats_valid_final
 #print axioms Tumfl.Props.C04_expr_cycle_diverges
+#print axioms Tumfl.Props.C04_faithful
+#print axioms Tumfl.Props.C04_faithful_dedup
+#print axioms Tumfl.Props.C04_spec_deterministic
+#print axioms Tumfl.Props.C04_faithful_unique
+#print axioms Tumfl.Props.C04_spec_forget
+#print axioms Tumfl.Props.C04_dedup
+#print axioms Tumfl.Props.C04_faithful_example
+#print axioms Tumfl.Props.C04_spec_strict
